@@ -163,4 +163,13 @@ def withContext (tb : Table) : Table :=
 def specDict (tb : Table) (g : DiGraph) : Except Err (List Entry) :=
   asDaskDict (withContext tb) g.copy
 
+/-- The stable partition "tasks that do not take the context first". -/
+def ctxLast (l : List Task) : List Task :=
+  l.filter (fun t => !t.takesCtx) ++ l.filter (fun t => t.takesCtx)
+
+/-- What the dispatcher should see of a task: the context in front of the
+    static inputs iff the function takes it. -/
+def withCtx (t : Task) : Task := if t.takesCtx then addCtx t else t
+
+
 end Pharmpy.C17
